@@ -28,11 +28,19 @@ type C16Client struct {
 	Publish int   `json:"publish"` // bytes to publish on its own topic (0 = none)
 	MsgSize int   `json:"msg_size"`
 	KA1     bool  `json:"ka1"` // negotiates keep-alive 1 s
+	// WillSize > 0: the will message has this many bytes (up to 65535; a will may be
+	// larger than the 16 KiB buffers of the connections it would be delivered to)
+	WillSize int `json:"will_size,omitempty"`
 }
 
 type C16End struct {
 	C     int    `json:"c"`
-	Cause string `json:"cause"` // disconnect | close | garbage | keepalive | serverclose
+	Cause string `json:"cause"` // disconnect | close | garbage | keepalive | serverclose | oversize
+	// oversize: before it closes, the client sends a PUBLISH with Total payload bytes (around and
+	// beyond what the 16 KiB inbound buffer can take in), the first Frag bytes in a
+	// write of their own
+	Total int `json:"total,omitempty"`
+	Frag  int `json:"frag,omitempty"`
 }
 
 type C16Case struct {
@@ -119,6 +127,10 @@ func runC16(c C16Case) (res c16result) {
 		if cl.Will {
 			cp.ConnectFlags |= 4 | 8
 			cp.WillTopic, cp.WillMessage = []byte(fmt.Sprintf("will/%d", i)), []byte(fmt.Sprintf("will-of-%d", i))
+			if cl.WillSize > 0 {
+				cp.WillMessage = bytes.Repeat([]byte{byte('a' + i)}, cl.WillSize)
+				cls["will-larger-than-a-connection-buffer"] = cls["will-larger-than-a-connection-buffer"] || cl.WillSize > 16384
+			}
 		}
 		if _, err := cn.Connect(cp); err != nil {
 			return c16result{Fail: fmt.Sprintf("client %d connect: %v", i, err)}
@@ -176,7 +188,9 @@ func runC16(c C16Case) (res c16result) {
 			}
 		}
 		return
-	}(); nb >= 8 {
+	}(); nb >= 16 {
+		cls[">=16-processors-blocked-on-one-subscriber"] = true
+	} else if nb >= 8 {
 		cls[">=8-processors-blocked-on-one-subscriber"] = true
 	}
 	for i := range c.Clients {
@@ -232,7 +246,7 @@ func runC16(c C16Case) (res c16result) {
 			continue
 		}
 		cause := e.Cause
-		if (cause == "disconnect" || cause == "garbage") && c.Clients[i].Publish > 0 {
+		if (cause == "disconnect" || cause == "garbage" || cause == "oversize") && c.Clients[i].Publish > 0 {
 			cause = "close" // its writer may be blocked behind unsent publishes
 		}
 		if cause == "keepalive" && !c.Clients[i].KA1 {
@@ -306,6 +320,24 @@ func runC16(c C16Case) (res c16result) {
 		case "garbage":
 			conns[i].SendAsync([]byte{0xF0, 0})
 			wantWill[i] = c.Clients[i].Will
+		case "oversize":
+			// a PUBLISH the inbound buffer may be unable to take in, then the socket is
+			// closed: whatever the broker does with the packet, the connection has ended
+			total := e.Total
+			if total < 16 {
+				total = 16
+			}
+			pk := codec.Encode(&codec.Packet{Type: codec.PUBLISH, Topic: []byte("big/x"), Payload: make([]byte, total)})
+			f := e.Frag
+			if f < 1 || f >= len(pk) {
+				f = 1
+			}
+			conns[i].SendAsync(pk[:f])
+			conns[i].SendAsync(pk[f:])
+			settled(500 * time.Millisecond)
+			conns[i].Close()
+			wantWill[i] = c.Clients[i].Will
+			cls["end:oversize-packet"] = true
 		case "keepalive":
 			// silence; the broker's read deadline (1.2 s) does the rest
 			wantWill[i] = c.Clients[i].Will
@@ -363,6 +395,9 @@ func runC16(c C16Case) (res c16result) {
 			if cl.Will && wantWill[i] {
 				want = 1
 			}
+			if cl.WillSize+len(fmt.Sprintf("will/%d", i))+8 > 16384 {
+				want = 0 // larger than the witness connection's buffer: it cannot be delivered to it
+			}
 			if g := got[fmt.Sprintf("will/%d", i)]; g != want {
 				return c16result{Fail: fmt.Sprintf("connection %d (will=%v) ended: its will was published %d times, expected %d", i, cl.Will, g, want)}
 			}
@@ -418,7 +453,7 @@ func runC16(c C16Case) (res c16result) {
 // stalled subscriber (connected last or first), some ended one by one, the
 // rest by Server.Close.
 func genC16Crowd(t *rapid.T) C16Case {
-	n := rapid.IntRange(7, 14).Draw(t, "crowd")
+	n := rapid.SampledFrom([]int{7, 9, 10, 12, 14, 17, 18, 21}).Draw(t, "crowd")
 	var c C16Case
 	subFirst := rapid.IntRange(0, 3).Draw(t, "subscriber-first") == 0
 	si := n - 1
@@ -454,6 +489,9 @@ func genC16(t *rapid.T) C16Case {
 	var c C16Case
 	for i := 0; i < n; i++ {
 		cl := C16Client{Clean: rapid.Bool().Draw(t, "clean"), Will: rapid.Bool().Draw(t, "will"), KA1: rapid.IntRange(0, 6).Draw(t, "ka1") == 0}
+		if cl.Will && rapid.IntRange(0, 4).Draw(t, "bigwill") == 0 {
+			cl.WillSize = rapid.SampledFrom([]int{3000, 9000, 16300, 20000, 65535}).Draw(t, "willsize")
+		}
 		for j, m := 0, rapid.IntRange(0, 2).Draw(t, "nsubs"); j < m; j++ {
 			cl.SubsTo = append(cl.SubsTo, rapid.IntRange(0, n-1).Draw(t, "subto"))
 		}
@@ -472,8 +510,13 @@ func genC16(t *rapid.T) C16Case {
 		return p
 	}()).Draw(t, "order")
 	for _, i := range perm {
-		cause := rapid.SampledFrom([]string{"disconnect", "close", "close", "garbage", "keepalive", "close"}).Draw(t, "cause")
-		c.Ends = append(c.Ends, C16End{C: i, Cause: cause})
+		cause := rapid.SampledFrom([]string{"disconnect", "close", "close", "garbage", "keepalive", "close", "oversize"}).Draw(t, "cause")
+		end := C16End{C: i, Cause: cause}
+		if cause == "oversize" {
+			end.Total = rapid.SampledFrom([]int{8000, 8193, 9000, 12000, 16383, 16384, 16385, 20000, 50000}).Draw(t, "total")
+			end.Frag = rapid.SampledFrom([]int{1, 2, 5, 100, 1000, 4000}).Draw(t, "frag")
+		}
+		c.Ends = append(c.Ends, end)
 		if rapid.IntRange(0, 9).Draw(t, "serverclose") == 0 {
 			c.Ends = append(c.Ends, C16End{Cause: "serverclose"})
 			break
